@@ -59,7 +59,11 @@ def generate(rng, tier):
         else:
             steps.append({'id': sid, 'op': 'ref_message', 'framing': rng.choice(['old', 'partial', 'new']), 'signed': rng.random() < 0.6,
                           'compression': rng.choice([0, 1, 2, 3]), 'size': rng.choice([0, 10, 700, 3000])})
-    return {'config': {'keys': keys, 'start_us': 1_600_000_000_000_000 + rng.choice([0, 300_000])}, 'steps': steps}
+    start_us = 1_600_000_000_000_000 + rng.choice([0, 300_000])
+    if rng.random() < 0.04:
+        # block-aligned compressor input: a literal packet (six header octets, format, empty name, time) of exactly k * 65536 octets
+        spec.update(body='binary', file=False, sensitive=False, size=rng.choice([1, 1, 2]) * 65536 - 12, bom=False)
+    return {'config': {'keys': keys, 'start_us': start_us}, 'steps': steps}
 
 
 def simplify(case):
